@@ -37,7 +37,8 @@ type TxnProg struct {
 	OnePC       bool   `json:"onepc,omitempty"`
 	Causal      bool   `json:"causal,omitempty"`
 	Ops         []Op   `json:"ops"`
-	End         string `json:"end"` // commit | rollback
+	End         string `json:"end"`                 // commit | rollback
+	CancelMs    int    `json:"cancel_ms,omitempty"` // the context passed to Commit is cancelled this long after the call (0: never)
 }
 
 // TopoEvent is a scheduled topology change.
@@ -64,6 +65,9 @@ type NetCfg struct {
 	Plan      map[string]simkit.Fate `json:"plan,omitempty"`
 	JitterUs  int                    `json:"jitter_us"`
 	OnlyTypes []string               `json:"only_types,omitempty"`
+	// Persist: from the given RPC position of a client's marked phase on, EVERY request of that client gets the fate
+	// (a store that keeps answering RegionNotFound, a partition that does not heal): back-off budgets get exhausted.
+	Persist map[string]simkit.Fate `json:"persist,omitempty"`
 }
 
 // Scenario is the explicit, replayable description of one run.
@@ -82,6 +86,7 @@ type Scenario struct {
 	Keyspace bool        `json:"keyspace,omitempty"`
 	Reads    *ReadPlan   `json:"reads,omitempty"`
 	GC       *GCPlan     `json:"gc,omitempty"`
+	Keys     []string    `json:"keys,omitempty"` // key pool of the run when it is not the default one
 }
 
 // GCPlan drives the C14 phase: range-task coverage, GC lock resolution, safe-point
@@ -143,8 +148,9 @@ type genOpts struct {
 	onePCRate    float64
 	lockRate     float64
 	readOnlyPct  float64
-	boundedRiter bool // never generate a reverse scan without upper bound (known finding F1)
-	staging      bool // generate staging / release / cleanup / checkpoint / revert steps (C07)
+	boundedRiter bool     // never generate a reverse scan without upper bound (known finding F1)
+	bounds       []string // extra scan bound candidates (besides the keys themselves)
+	staging      bool     // generate staging / release / cleanup / checkpoint / revert steps (C07)
 	maxOps       int
 }
 
@@ -163,6 +169,7 @@ func genTxn(r *rand.Rand, id int, clients int, o genOpts, keys []string) TxnProg
 	written := map[string]bool{}
 	depth := 0
 	hasCP := false
+	cpDepth := 0
 	for i := 0; i < nops; i++ {
 		var op Op
 		x := r.Float64()
@@ -171,14 +178,18 @@ func genTxn(r *rand.Rand, id int, clients int, o genOpts, keys []string) TxnProg
 			switch {
 			case depth > 0 && r.Intn(2) == 0:
 				p.Ops = append(p.Ops, Op{Kind: pick(r, []string{"release", "cleanup", "cleanup"})})
+				if hasCP && cpDepth == depth {
+					hasCP = false // the checkpoint belonged to the level that just ended
+				}
 				depth--
-			case depth == 0 && !hasCP && r.Intn(3) == 0:
+			case !hasCP && r.Intn(3) == 0:
+				// also inside an open staging level
 				p.Ops = append(p.Ops, Op{Kind: "checkpoint"})
-				hasCP = true
-			case depth == 0 && hasCP && r.Intn(2) == 0:
+				hasCP, cpDepth = true, depth
+			case hasCP && cpDepth == depth && r.Intn(2) == 0:
 				p.Ops = append(p.Ops, Op{Kind: "revert"})
 				hasCP = false
-			case depth < 3:
+			case depth < 3 && !(hasCP && cpDepth == depth && r.Intn(2) == 0):
 				p.Ops = append(p.Ops, Op{Kind: "stage"})
 				depth++
 			}
@@ -198,23 +209,25 @@ func genTxn(r *rand.Rand, id int, clients int, o genOpts, keys []string) TxnProg
 		case x < 0.30:
 			op = Op{Kind: "bget", Keys: subset(r, keys, 1, 4)}
 		case x < 0.37:
+			bk := append(append([]string(nil), keys...), o.bounds...)
 			op = Op{Kind: "iter"}
 			if r.Intn(2) == 0 {
-				op.Lo = pick(r, keys)
+				op.Lo = pick(r, bk)
 			}
 			if r.Intn(2) == 0 {
-				op.Hi = pick(r, keys)
+				op.Hi = pick(r, bk)
 				if op.Lo != "" && op.Hi < op.Lo {
 					op.Lo, op.Hi = op.Hi, op.Lo
 				}
 			}
 		case x < 0.42:
+			bk := append(append([]string(nil), keys...), o.bounds...)
 			op = Op{Kind: "riter"}
 			if r.Intn(2) == 0 || o.boundedRiter {
-				op.Hi = pick(r, keys)
+				op.Hi = pick(r, bk)
 			}
 			if r.Intn(2) == 0 {
-				op.Lo = pick(r, keys)
+				op.Lo = pick(r, bk)
 				if op.Hi != "" && op.Hi < op.Lo {
 					op.Lo, op.Hi = op.Hi, op.Lo
 				}
@@ -265,6 +278,37 @@ func genTxn(r *rand.Rand, id int, clients int, o genOpts, keys []string) TxnProg
 			p.Ops = append(p.Ops, lk)
 		}
 		p.Ops = append(p.Ops, op)
+	}
+	_ = cpDepth
+	if o.staging && depth == 0 && !hasCP && r.Intn(3) == 0 {
+		// a directed savepoint pattern: write, take a savepoint (staging level and/or checkpoint, possibly a
+		// checkpoint INSIDE an open level), overwrite the same key, undo, read back through every path
+		k := pick(r, keys)
+		v := func() string { nops++; return fmt.Sprintf("t%d.%d", id, nops) }
+		inLevel := r.Intn(2) == 0
+		if inLevel {
+			p.Ops = append(p.Ops, Op{Kind: "stage"})
+		}
+		p.Ops = append(p.Ops, Op{Kind: "set", Keys: []string{k}, Val: v()})
+		useCP := r.Intn(3) != 0
+		if useCP {
+			p.Ops = append(p.Ops, Op{Kind: "checkpoint"})
+		} else {
+			p.Ops = append(p.Ops, Op{Kind: "stage"})
+		}
+		p.Ops = append(p.Ops, pick(r, []Op{{Kind: "set", Keys: []string{k}, Val: v()}, {Kind: "delete", Keys: []string{k}}, {Kind: "set", Keys: []string{k}, Val: v()}}))
+		if r.Intn(2) == 0 {
+			p.Ops = append(p.Ops, Op{Kind: "set", Keys: []string{pick(r, keys)}, Val: v()})
+		}
+		if useCP {
+			p.Ops = append(p.Ops, Op{Kind: "revert"})
+		} else {
+			p.Ops = append(p.Ops, Op{Kind: pick(r, []string{"cleanup", "cleanup", "release"})})
+		}
+		p.Ops = append(p.Ops, Op{Kind: "get", Keys: []string{k}}, Op{Kind: pick(r, []string{"iter", "bget", "riter"}), Keys: append([]string(nil), keys...), Hi: "g"})
+		if inLevel {
+			p.Ops = append(p.Ops, Op{Kind: pick(r, []string{"release", "cleanup"})}, Op{Kind: "get", Keys: []string{k}})
+		}
 	}
 	for ; depth > 0; depth-- {
 		p.Ops = append(p.Ops, Op{Kind: pick(r, []string{"release", "cleanup"})})
